@@ -47,8 +47,7 @@ RULE = (
     'shuffled, one n-ary merge_states}, then result() twice and 1-3 further add()s; third '
     'audit round: scenario reservoir_unequal (vlib/c01_scenarios.py, shared with C01): 2-3 '
     'FixedSizeSample states of pairwise different max_size merged into the first, in both '
-    'directions, at every fill level, one of 1e6 sampler seeds per case; macro average '
-    'without vocab on binary / multiclass-indicator input (adapters of C01) iterated here too')
+    'directions, at every fill level, one of 1e6 sampler seeds per case')
 ASSUMPTIONS = list(_c01.ASSUMPTIONS) + [
     'a fresh state is what the constructor / create_state() returns, never fed',
     'states are not built by new(batch) from a batch that holds only NaN (such a state '
@@ -65,11 +64,8 @@ ASSUMPTIONS = list(_c01.ASSUMPTIONS) + [
     'FixedSizeSample) are not scribbled on',
     'merge_states: only the first state may be modified (docstring of Aggregatable)',
     'adapters that exist for C01 input classes only (",inf" data, ",all-metrics" / macro / '
-    'binary-average configurations of multiclass / multiclass-multioutput labels without '
-    'vocabulary) are not iterated here (Adapter.checks); the merge laws on them are those of '
-    'their sibling adapters. Macro average without vocab on binary / multiclass-indicator '
-    'input IS iterated (third audit round): merging valid states of a configuration that '
-    'never reads a vocab must be defined',
+    'binary-average configurations without vocabulary) are not iterated here '
+    '(Adapter.checks); the merge laws on them are those of their sibling adapters',
     'reservoir_many: invariants only (size, membership, reviewed count, operand unchanged, '
     'result repeatable, add() after the merges works); sampling probabilities are not checked',
 ]
@@ -78,7 +74,6 @@ REQUIRED = ['grouping_checks', 'states_built_by_new', 'permutation_checks', 'ide
             'obj_api_checks', 'aggfn_api_checks', 'fresh_state_cases',
             'nary_merge_states_checks', 'nary_operand_checks',
             'nary_operand_checks_4plus', 'independence_checks',
-            'macro_fixed_position_no_vocab_cases',
             'reservoir_many_states_cases', 'reservoir_many_tiny_cases',
             'reservoir_many_large_cases', 'reservoir_add_after_merge_checks',
             'reservoir_unequal_cases', 'reservoir_unequal_large_receiver_cases',
